@@ -257,28 +257,42 @@ def _gap_sem(p: Program, mb: Any) -> tuple[str, int]:
     cases = 0
     for k in range(0, 5):
         for seq in itertools.product('tecw', repeat=k):
-            toks = [possem.Obj('LarkToken', {'type': kinds[ch][0], 'value': kinds[ch][1]}, f'{i}:{ch}') for i, ch in enumerate(seq)]
+            # texts of unknown length: a token with text is an abstract string whose length is a positive symbol, so a test on the
+            # length (or anything else the symbols do not decide) forks the evaluation
+            toks = [possem.Obj('LarkToken', {'type': kinds[ch][0], 'value': possem.StrSym(f'v{i}', False) if kinds[ch][1] else ''}, f'{i}:{ch}')
+                    for i, ch in enumerate(seq)]
             for cursor in range(0, k + 1):
                 for target in range(cursor, k + 1):
-                    me = possem.Obj('ModelBuilder', {'_tokens': list(toks), '_built_tokens': [], '_cursor': cursor,
-                                                     '_token_to_index': {id(t): i for i, t in enumerate(toks)}}, 'builder')
-                    cases += 1
-                    try:
-                        Interp(ts, [], module=m).call_function(fg, [me, target], {})
-                    except possem.Raised as ex:
-                        return f'tokens {"".join(seq) or "-"}, cursor {cursor}, gap up to {target}: raises {ex}', cases
-                    want = [(t.f['type'], t.f['value']) for t in toks[cursor:target] if t.f['value']]
-                    got = [(b.f['type'], b.f['raw_text']) for b in me.f['_built_tokens']]
-                    if got != want:
-                        return (f'tokens {"".join(seq)} (t text, e zero-width mark, c block comment, w blank), cursor {cursor}, gap up to {target}: '
-                                f'materialises {got}, the lexer tokens with text in that range are {want}'), cases
-                    if me.f['_cursor'] != target:
-                        return f'_fix_gap({target}) leaves the cursor at {me.f["_cursor"]!r}', cases
-                    if any(b.f['type'] == 'BLOCK_COMMENT' and b.f['claimed'] for b in me.f['_built_tokens']):
-                        return 'a block comment from a gap is materialised as already claimed', cases
+                    script: list[int] = []
+                    while True:
+                        me = possem.Obj('ModelBuilder', {'_tokens': list(toks), '_built_tokens': [], '_cursor': cursor,
+                                                         '_token_to_index': {id(t): i for i, t in enumerate(toks)}}, 'builder')
+                        cases += 1
+                        it = Interp(ts, script, module=m)
+                        try:
+                            it.call_function(fg, [me, target], {})
+                        except possem.Raised as ex:
+                            return f'tokens {"".join(seq) or "-"}, cursor {cursor}, gap up to {target}: raises {ex}', cases
+                        want = [(t.f['type'], id(t.f['value'])) for t in toks[cursor:target] if t.f['value'] != '']
+                        got = [(b.f['type'], id(b.f['raw_text'])) for b in me.f['_built_tokens']]
+                        if got != want:
+                            decided = '; '.join(f'{lab} -> {"yes" if c else "no"}' for c, _, lab in it.taken)
+                            return (f'tokens {"".join(seq)} (t text, e zero-width mark, c block comment, w blank), cursor {cursor}, gap up to {target}'
+                                    f'{" [when " + decided + "]" if decided else ""}: materialises {len(got)} token(s), the lexer tokens with text in '
+                                    f'that range are {len(want)} -- a token with text is dropped, duplicated or built from another text'), cases
+                        if me.f['_cursor'] != target:
+                            return f'_fix_gap({target}) leaves the cursor at {me.f["_cursor"]!r}', cases
+                        if any(b.f['type'] == 'BLOCK_COMMENT' and b.f['claimed'] for b in me.f['_built_tokens']):
+                            return 'a block comment from a gap is materialised as already claimed', cases
+                        taken = it.taken
+                        while taken and taken[-1][0] + 1 >= taken[-1][1]:
+                            taken = taken[:-1]
+                        if not taken:
+                            break
+                        script = [c for c, _, _ in taken[:-1]] + [taken[-1][0] + 1]
             # _build_token for every token with text
             for i, t in enumerate(toks):
-                if not t.f['value']:
+                if t.f['value'] == '':
                     continue
                 for cursor in range(0, i + 1):
                     me = possem.Obj('ModelBuilder', {'_tokens': list(toks), '_built_tokens': [], '_cursor': cursor,
@@ -288,8 +302,8 @@ def _gap_sem(p: Program, mb: Any) -> tuple[str, int]:
                         res = Interp(ts, [], module=m).call_function(bt, [me, t], {})
                     except possem.Raised as ex:
                         return f'_build_token(token {i}) with the cursor at {cursor}: raises {ex}', cases
-                    want = [(x.f['type'], x.f['value']) for x in toks[cursor:i + 1] if x.f['value']]
-                    got = [(b.f['type'], b.f['raw_text']) for b in me.f['_built_tokens']]
+                    want = [(x.f['type'], id(x.f['value'])) for x in toks[cursor:i + 1] if x.f['value'] != '']
+                    got = [(b.f['type'], id(b.f['raw_text'])) for b in me.f['_built_tokens']]
                     if got != want or me.f['_cursor'] != i + 1 or not (me.f['_built_tokens'] and res is me.f['_built_tokens'][-1]):
                         return (f'tokens {"".join(seq)}, _build_token(token {i}) with the cursor at {cursor}: materialises {got} and leaves the cursor at '
                                 f'{me.f["_cursor"]!r}; expected {want}, cursor {i + 1}, returning the last built token'), cases
